@@ -8,7 +8,8 @@ from common import Ctx, driver_batch, fmt, rel_close
 import uni_common as U
 
 PROPERTY = "C07"
-LEAN_MODULES = ["Proofs.C07", "Proofs.C07.Round"]
+LEAN_MODULES = ["Proofs.C07", "Proofs.C07.Round", "Proofs.C07.Wei", "Proofs.C07.Maximal", "Proofs.C07.Token", "Proofs.C07.RoundTrip",
+                "Proofs.C07.RoundTripMarket"]
 RULE = ("random (sqrt price, tick pair, decimals in {6,8,18}^2, offered amounts 0..1e12 tokens) with a boundary stream (price exactly on a "
         "range bound, ranges touching MIN/MAX tick, the full range at every spacing, ranges and prices beyond |tick| = 2^19, equal ticks, reversed "
         "ticks, zero amounts) and a magnitude stream (1e9..1e12 tokens of an 18-decimal token into 1..200-tick ranges, where liquidity has 36..50 "
@@ -224,6 +225,14 @@ def check_case(ctx, lm, core, pool_cls, tok_cls, c, reqs):
             slack = Fraction(1)
         if not (0 <= real - L <= slack):
             ctx.violate("maximal", f"liquidity {L} is not maximal: real-valued maximum {float(real):.6g}, allowed slack {float(slack):.6g}", rep)
+        # --- one more unit of liquidity over-spends (C07_succ_overspends): L+1 needs more token1 than offered, or more token0 than
+        #     offered0 * (1 - 2^96/(lo*sb)) -- the factor is what the floor of mul_div(sqrtA, sqrtB, 2**96) loses
+        n0, n1 = closed_form(s, sa, sb, L + 1, 0, 0)
+        lo_leg = sa if s <= sa else s
+        over0 = n0 > w0 * (1 - Fraction(Q, lo_leg * sb))
+        over1 = n1 > w1
+        if not (over0 if s <= sa else ((over0 or over1) if s < sb else over1)):
+            ctx.violate("maximal.succ", f"liquidity {L} + 1 would still fit the offer: needs ({float(n0):.6g}, {float(n1):.6g}) wei of ({w0}, {w1})", rep)
         # --- closed form at 1e-30 relative
         c0f, c1f = closed_form(s, sa, sb, L, d0, d1)
         if not (rel_close(u0, c0f, TOL) and rel_close(u1, c1f, TOL)):
